@@ -272,6 +272,12 @@ func vkey(u, ts string) string {
 func skipExec(ops []string) []string {
 	res := make([]string, len(ops))
 	var s *skiplist.SkipList
+	// the values handed to Set are consecutive windows of one buffer, as a caller that decodes many entries from one block
+	// would pass them: each window's capacity reaches into the windows after it, and equal values are the same window.  The
+	// caller never writes to them afterwards; a sorted map must not either (another key's value, or a result returned
+	// earlier, would change)
+	arena := make([]byte, 0, 1<<16)
+	windows := map[string][]byte{}
 	for i, op := range ops {
 		t := strings.Split(op, " ")
 		switch t[0] {
@@ -279,10 +285,23 @@ func skipExec(ops []string) []string {
 			ml, _ := strconv.Atoi(t[1])
 			p, _ := strconv.ParseFloat(t[2], 64)
 			s = skiplist.New(ml, p)
+			arena = make([]byte, 0, 1<<16)
+			windows = map[string][]byte{}
 			res[i] = "ok"
 		case "set":
 			ver, _ := strconv.ParseInt(t[5], 10, 64)
-			s.Set(types.Entry{Key: vkey(t[1], t[2]), Value: unhx(t[3]), Tombstone: t[4] == "1", Version: ver})
+			v, ok := windows[t[3]]
+			if !ok {
+				raw := unhx(t[3])
+				start := len(arena)
+				arena = append(arena, raw...)
+				v = arena[start:len(arena)]
+				if raw == nil {
+					v = nil
+				}
+				windows[t[3]] = v
+			}
+			s.Set(types.Entry{Key: vkey(t[1], t[2]), Value: v, Tombstone: t[4] == "1", Version: ver})
 			res[i] = "ok"
 		case "get":
 			res[i] = showOpt(s.Get(vkey(t[1], t[2])))
